@@ -799,6 +799,9 @@ def orc_c19(ctx, op, req, impl, model, spec):
         cols = impl.split(" | ")
         r1, r2 = cols[0], cols[1]
         r3 = cols[2] if len(cols) > 2 else "nostr"
+        if len(cols) > 3 and cols[3] != "same":
+            return ("deserialize_in_place (into a slot that holds ca-ES-valencia / as the element of a Vec that holds two values) gives %s, "
+                    "deserialize gives %s" % (cols[3], r1))
         if r3 != "nostr" and r2 != "badjson" and (r1 != r3 or r2 != r3):
             return "deserialising the JSON string gives %s, parsing the same string gives %s" % (r1 if r1 != r3 else r2, r3)
         try:
@@ -1105,7 +1108,7 @@ def extra_stream(name, tier, seed, ops=None):
         exts = sweep_extension_strings()
         oplist = (ops or "li,loc").split(",")
         lines = []
-        locs = list(ids[::3]) + ["en-" + e for e in exts] + ["sr-Cyrl-RS-" + e for e in exts[::4]] + [ids[i * 7 % len(ids)] + "-" + e for i, e in enumerate(exts[::3])]
+        locs = list(ids[:-82:3]) + list(ids[-82:]) + ["en-" + e for e in exts] + ["sr-Cyrl-RS-" + e for e in exts[::4]] + [ids[i * 7 % len(ids)] + "-" + e for i, e in enumerate(exts[::3])]
         for op in oplist:
             if op in ("li", "lican", "listr", "liparts", "serto"):
                 lines += ["%s %s" % (op, hx(t)) for t in ids]
@@ -1240,8 +1243,32 @@ def extra_stream(name, tier, seed, ops=None):
         oplist = (ops or "li,loc").split(",")
         ids = sweep_identifiers()
         base = [t for t in ids if len(t) <= 30][::5] + ["en-US", "pl_latn_pl", "und", "sr-Cyrl-RS-u-ca-buddhist", "en-t-es-AR-h0-hybrid-x-priv", "de-CH-1996"]
-        tails = [b"\x00", b"\x00\x00\x00", b" ", b"\n", b"-", b"_", b"\xff", b"a", b"-a", b"\x00x"]
+        tails = [b"\x00", b"\x00\x00\x00", b" ", b"\n", b"-", b"_", b"\xff", b"a", b"-a", b"\x00x", b"-1996", b"-valencia", b"-US", b"-Latn",
+                 b"-x-a", b"-u-ca-buddhist"]
+        # longer texts too (a key that keeps only the first 16 / 24 / 32 / 48 / 64 bytes), and neighbours of the SAME length: one byte
+        # changed, at the end and at every eighth position (to another letter / digit: mostly a different well-formed text; to `$`: an
+        # ill-formed one)
+        longs = [t for t in ids if 33 <= len(t) <= 75][::9] + ["en-Latn-US-u-ca-buddhist-hc-h12-nu-thai-x-private", "th-TH-u-ca-buddhist-co-phonebk-hc-h12-nu-thai",
+                                                               "ca-Latn-ES-fonipa-valencia-1996-alalc97-t-en-h0-hybrid"]
         lines = []
+        for op in [o for o in oplist if o != "serfrom"]:
+            for t in longs + base[:40]:
+                tb = t.encode()
+                pos = sorted(set([len(tb) - 1, len(tb) - 2] + list(range(7, len(tb), 8))))
+                for i in pos:
+                    if i < 0 or tb[i:i + 1] == b"-":
+                        continue
+                    for repl in (b"$", b"z" if tb[i:i + 1] != b"z" else b"y", b"7" if tb[i:i + 1] != b"7" else b"8"):
+                        lines.append("%s %s" % (op, R.hexs(tb)))
+                        lines.append("%s %s" % (op, R.hexs(tb[:i] + repl + tb[i + 1:])))
+        # a multi-byte character at every offset of short texts (a fast path that cuts a &str at a fixed byte offset)
+        for op in [o for o in oplist if o in ("listr", "locstr", "li", "loc", "lican", "loccan", "conv")]:
+            for t in ("en", "en-US", "en-Latn", "de-1996", "sr-Cyrl-RS", "und", "a-b-c-d-e-f"):
+                for ch in ("\u00e9", "\u20ac", "\U0001f600"):
+                    for i in range(len(t) + 1):
+                        for cut in (0, 1, 2, 3):
+                            u = t[:i] + ch + t[i + cut:]
+                            lines.append("%s %s" % (op, R.hexs(u.encode("utf-8"))))
         if "serfrom" in oplist:
             # the same through JSON strings (`\u0000` for NUL)
             oplist = [o for o in oplist if o != "serfrom"]
@@ -1288,7 +1315,8 @@ def extra_stream(name, tier, seed, ops=None):
         lines = []
         k = 0
         for (l, sc, rg) in pick:
-            u = unknowns[k % len(unknowns)]
+            # an unknown language: a fixed one, or the known one extended to a (well-formed) 5-8 letter language
+            u = (unknowns + [l + "xyz"[: max(2, 5 - len(l))], (l + "issabcd")[:8], l + "abc"])[k % (len(unknowns) + 3)]
             k += 1
             for op in oplist:
                 if op in ("max", "min"):
